@@ -885,4 +885,218 @@ theorem storeByte_spec {h : Heap} {t : T} {rest : List T} (k : Nat) (v : UInt8)
       rw [List.take_set]
 
 
+/-! ## no panic below 2 GiB
+
+`Sat` admits a panic anywhere; these lemmas show that the panics of the model (the crate's `OFLOW`
+guards and length asserts) do not fire while all sizes stay ≤ 2^31. -/
+
+/-- the computation does not panic -/
+def NP {α : Type} (x : M α) : Prop := ∀ s, x ≠ .error (.panic s)
+
+theorem NP.ok {α} {a : α} : NP (.ok a : M α) := by intro s h; cases h
+
+theorem NP.ub {α} {u : String} : NP (.error (.ub u) : M α) := by intro s h; cases h
+
+theorem NP.bind {α β} {x : M α} {f : α → M β} (hx : NP x) (hf : ∀ a, x = .ok a → NP (f a)) :
+    NP (x >>= f) := by
+  cases x with
+  | ok a => exact hf a rfl
+  | error e =>
+    cases e with
+    | panic s => exact (hx s rfl).elim
+    | ub u => exact NP.ub
+
+theorem NP.of_satT {α} {x : M α} {Q : α → Prop} (h : SatT x Q) : NP x := by
+  obtain ⟨a, rfl, _⟩ := h; exact NP.ok
+
+theorem NP.ite_panic {α} {c : Prop} [Decidable c] {s : String} {x : M α} (hc : ¬ c) (h : NP x) :
+    NP (if c then .error (.panic s) else x) := by
+  rw [if_neg hc]; exact h
+
+theorem NP.ite_ub {α} {c : Prop} [Decidable c] {s : String} {x : M α} (h : NP x) :
+    NP (if c then .error (.ub s) else x) := by
+  split
+  · exact NP.ub
+  · exact h
+
+theorem roundCap_le {x : Nat} (h : x ≤ 2147483648) : roundCap x ≤ 4294967295 := by
+  unfold roundCap; omega
+
+theorem nextPow2Fuel_le (f p n k : Nat) (hk : k ≤ f) (hn : n ≤ p * 2 ^ k) :
+    nextPow2Fuel f p n ≤ p * 2 ^ k := by
+  induction f generalizing p k with
+  | zero =>
+    have : k = 0 := by omega
+    subst this; simp [nextPow2Fuel]
+  | succ f ih =>
+    unfold nextPow2Fuel
+    split
+    · have : 1 ≤ 2 ^ k := Nat.one_le_two_pow
+      calc p = p * 1 := (Nat.mul_one p).symm
+        _ ≤ p * 2 ^ k := Nat.mul_le_mul_left p this
+    · rename_i hgt
+      cases k with
+      | zero => simp at hn; omega
+      | succ k =>
+        have := ih (2 * p) k (by omega) (by rw [Nat.pow_succ] at hn; rw [Nat.mul_comm 2 p, Nat.mul_assoc, Nat.mul_comm 2 (2 ^ k)]; exact hn)
+        rw [Nat.pow_succ, ← Nat.mul_assoc, Nat.mul_comm p (2 ^ k), Nat.mul_assoc, Nat.mul_comm (2 ^ k) (p * 2),
+          Nat.mul_comm p 2]
+        exact this
+
+theorem nextPow2_le {n : Nat} (h : n ≤ 2147483648) : nextPow2 n ≤ 2147483648 := by
+  have := nextPow2Fuel_le 33 1 n 31 (by omega) (by simpa using h)
+  simpa [nextPow2] using this
+
+theorem np_ownedCopy {h : Heap} (x : List UInt8) (hx : x.length ≤ 2147483648) : NP (ownedCopy h x) := by
+  unfold ownedCopy buf32WithCapacity
+  simp only []
+  have hc : ¬ roundCap (if x.length < 16 then 16 else x.length) > 4294967295 := by
+    have : roundCap (if x.length < 16 then 16 else x.length) ≤ 4294967295 := by
+      apply roundCap_le; split <;> omega
+    omega
+  simp only [hc, ↓reduceIte, Heap.alloc, bind, Except.bind]
+  generalize hcc : roundCap (if x.length < 16 then 16 else x.length) = c
+  have h1 : x.length ≤ c := by
+    subst hcc; split
+    · have := le_roundCap 16; omega
+    · exact le_roundCap _
+  have hnb : (h.bufs ++ [(⟨[], c, 0, 1, true⟩ : Buf)])[h.bufs.length]? = some ⟨[], c, 0, 1, true⟩ := by
+    simp
+  have hwr := write_ok (h := ⟨h.bufs ++ [⟨[], c, 0, 1, true⟩], .alloc h.bufs.length c :: h.trace⟩)
+    (id := h.bufs.length) (pos := 0) (bytes := x) (b := ⟨[], c, 0, 1, true⟩) "owned_copy" hnb rfl
+    (Nat.zero_le _) (by simpa using h1)
+  rw [hwr]
+  exact NP.ok
+
+theorem np_makeOwned {h : Heap} {t : T} {rest : List T} (w : WF h (t :: rest))
+    (hl : t.len32 ≤ 2147483648) : NP (makeOwned h t) := by
+  have hlen := abs_length (w.twf t (List.mem_cons_self ..))
+  have key : NP (asByteSlice h t >>= fun bs => ownedCopy h bs >>= fun r =>
+      dropT r.1 t >>= fun h' => (.ok (h', r.2) : M (Heap × T))) := by
+    rw [asByteSlice_head w]
+    apply NP.bind (np_ownedCopy _ (by rw [hlen]; exact hl))
+    rintro ⟨h1, t1⟩ he
+    obtain ⟨w1, _⟩ := (ownedCopy_spec (abs h t) w).of_ok he
+    have w1' : WF h1 (t :: t1 :: rest) := w1.perm (List.Perm.swap ..)
+    apply NP.bind (NP.of_satT (dropT_spec w1'))
+    intro h2 _
+    exact NP.ok
+  cases t with
+  | owned id len cap => exact NP.ok
+  | inline bs => exact key
+  | shared id off len => exact key
+
+theorem np_buf32Grow {h : Heap} {id len cap : Nat} {rest : List T} (newCap : Nat)
+    (w : WF h (.owned id len cap :: rest)) (hn : newCap ≤ 2147483648) : NP (buf32Grow h id cap newCap) := by
+  obtain ⟨b, hb, hl, hc, hlen, hok, hrc, hr0⟩ := w.owned_head
+  unfold buf32Grow
+  split
+  · exact NP.ok
+  · simp only []
+    have h1 := nextPow2_le hn
+    apply NP.ite_panic (by omega)
+    apply NP.ite_panic (by have := roundCap_le h1; omega)
+    rw [realloc_ok _ hb hl hc.symm]
+    exact NP.ok
+
+theorem np_makeOwnedWithCapacity {h : Heap} {t : T} {rest : List T} (cap : Nat) (w : WF h (t :: rest))
+    (hl : t.len32 ≤ 2147483648) (hc : cap ≤ 2147483648) : NP (makeOwnedWithCapacity h t cap) := by
+  unfold makeOwnedWithCapacity
+  apply NP.bind (np_makeOwned w hl)
+  rintro ⟨h1, t1⟩ he
+  obtain ⟨w1, _, _, id, c, ht1⟩ := (makeOwned_spec w).of_ok he
+  simp only at w1 ht1
+  subst ht1
+  simp only []
+  apply NP.bind (np_buf32Grow cap w1 hc)
+  rintro ⟨h2, id2, c2⟩ _
+  exact NP.ok
+
+theorem np_fromBytesUnchecked {h : Heap} (x : List UInt8) (hx : x.length ≤ 2147483648) :
+    NP (fromBytesUnchecked h x) := by
+  unfold fromBytesUnchecked
+  apply NP.ite_panic (by omega)
+  split
+  · rename_i h8
+    rw [mkInline_ok _ h8]; exact NP.ok
+  · exact np_ownedCopy x hx
+
+theorem np_pushBytesUnchecked {F : Format} (hF : ∀ a b, F.fixup a b = {}) {h : Heap} {t : T}
+    {rest : List T} (buf : List UInt8) (w : WF h (t :: rest))
+    (hs : t.len32 + buf.length ≤ 2147483648) : NP (pushBytesUnchecked F h t buf) := by
+  have hlen := abs_length (w.twf t (List.mem_cons_self ..))
+  unfold pushBytesUnchecked
+  simp only [bind, Except.bind]
+  apply NP.ite_panic (by omega)
+  rw [asByteSlice_head w]
+  simp only [hF, List.length_nil, Nat.add_zero, Nat.sub_zero]
+  apply NP.ite_panic (by omega)
+  apply NP.ite_panic (by omega)
+  apply NP.ite_panic (by omega)
+  apply NP.ite_panic (by omega)
+  apply NP.ite_ub
+  split
+  · apply NP.ite_ub
+    rename_i h8
+    have h8' : (List.take (t.len32 + buf.length)
+        (List.take (abs h t).length (abs h t) ++ [] ++ List.drop 0 buf)).length ≤ 8 := by
+      simp [List.length_take]; omega
+    rw [mkInline_ok _ h8']
+    simp only []
+    apply NP.bind (NP.of_satT (dropT_spec w))
+    intro h1 _
+    exact NP.ok
+  · apply NP.bind (np_makeOwnedWithCapacity _ w (by omega) (by omega))
+    rintro ⟨h1, t1⟩ he
+    obtain ⟨w1, _, _, id, c, ht1, hge⟩ := (makeOwnedWithCapacity_spec _ w).of_ok he
+    simp only at w1 ht1 hge
+    subst ht1
+    simp only []
+    apply NP.ite_ub
+    obtain ⟨b, hb, hl, hc, hlen1, hok, hrc, hr0⟩ := w1.owned_head
+    rw [write_ok _ hb hl (by omega) (by simp; omega)]
+    exact NP.ok
+
+theorem np_pushTendril {F : Format} (hF : ∀ a b, F.fixup a b = {}) {h : Heap} {t o : T}
+    {rest : List T} (w : WF h (t :: rest)) (ho : o ∈ rest)
+    (hs : t.len32 + o.len32 ≤ 2147483648) : NP (pushTendril F h t o) := by
+  have wo : TWF h o := w.twf o (List.mem_cons_of_mem _ ho)
+  have hlo := abs_length wo
+  have slow : NP (asByteSlice h o >>= fun bs => pushBytesUnchecked F h t bs) := by
+    rw [asByteSlice_eq wo w.bufs]
+    exact np_pushBytesUnchecked hF _ w (by rw [hlo]; exact hs)
+  unfold pushTendril
+  apply NP.ite_panic (by omega)
+  split
+  · split
+    · exact NP.ok
+    · exact slow
+  · exact slow
+
+theorem np_reserveT {h : Heap} {t : T} {rest : List T} (n : Nat) (w : WF h (t :: rest))
+    (hs : t.len32 + n ≤ 2147483648) : NP (reserveT h t n) := by
+  unfold reserveT
+  split
+  · exact NP.ok
+  · apply NP.ite_panic (by omega)
+    split
+    · exact np_makeOwnedWithCapacity _ w (by omega) hs
+    · exact NP.ok
+
+theorem np_withCapacity {h : Heap} {ts : List T} (n : Nat) (w : WF h ts) (hn : n ≤ 2147483648) :
+    NP (withCapacity h n) := by
+  unfold withCapacity
+  have w0 : WF h (.inline [] :: ts) := w.cons_inline (by simp)
+  split
+  · exact np_makeOwnedWithCapacity _ w0 (by simp [T.len32]) hn
+  · exact NP.ok
+
+theorem np_derefMut {h : Heap} {t : T} {rest : List T} (w : WF h (t :: rest))
+    (hl : t.len32 ≤ 2147483648) : NP (derefMut h t) := by
+  cases t with
+  | inline bs => exact NP.ok
+  | owned id len cap => exact np_makeOwned w hl
+  | shared id off len => exact np_makeOwned w hl
+
+
 end H5V.Lemmas.Tendril
